@@ -78,6 +78,8 @@ def err_kind(e):
         return "notimplemented"
     if isinstance(e, ValueError):
         return "value"
+    if isinstance(e, TypeError):
+        return "type"
     return type(e).__name__
 
 
@@ -176,7 +178,8 @@ def gen_times(rng, nser, family, exact=True, nmax=12):
             out.append([s0 + i * h * f for i in range(k)])
         else:  # disjoint
             k = rng.randint(2, 6)
-            out.append([base[-1] + h * rng.randint(0, 2) + i * h for i in range(k)])
+            gap = h * rng.randint(0, 2)
+            out.append([base[-1] + gap + i * h for i in range(k)])
     return out
 
 
@@ -549,11 +552,10 @@ def corr_export(chk, drv, rng, N, root):
         else:
             files = rng.choice([["f.ts"], ["f.ts", "g.ts"], ["d1/f.ts", "d2/f.ts"], ["a_b/c.ts", "a/b_c.ts"]])
             nm = rng.sample(["x", "y", "z", "w"], 2)
-            keys = []
-            while len(keys) < nser:
-                k = os.path.join("/data", rng.choice(files), rng.choice(nm))
-                if k not in keys:
-                    keys.append(k)
+            allk = [os.path.join("/data", f, n) for f in files for n in nm]
+            nser = min(nser, len(allk))
+            keys = rng.sample(allk, nser)
+            times = times[:nser]
         xs = [[Fraction(rng.randint(-32, 32), rng.choice([1, 2, 4])) for _ in t] for t in times]
         twin = gen_twin(rng, times) if rng.random() < 0.4 else None
         res = gen_resample(rng, times, twin is not None) if rng.random() < 0.35 else None
@@ -756,7 +758,9 @@ def gen_e2e(rng, corner=None):
         fam = "ident"
     times = [[float(v) for v in t] for t in times]
     scale = rng.choice([1e-3, 1.0, 1.0, 37.5, 1e4, 1e6])
-    pool = list(SAFE_NAMES) + (rng.sample(SPACE_NAMES, 1) if rng.random() < 0.25 else [])
+    ext = rng.choice(EXTS + [".pickle"] if rng.random() < 0.1 else EXTS)
+    pool = list(SAFE_NAMES) + (rng.sample(SPACE_NAMES, 2) if rng.random() < 0.3 else [])
+    pool = [n for n in pool if representable(n, ext)]        # the property's domain: names representable in the target format
     names = rng.sample(pool, nser)
     series = []
     if source == "mem":
@@ -767,7 +771,7 @@ def gen_e2e(rng, corner=None):
                 s["dtg"] = 0
     else:
         # series with the same time array share a file, others get their own file
-        ext = "." + source
+        sext = "." + source
         layouts = rng.choice([["f", "g", "h", "k"], ["d1/f", "d2/f", "d1/g", "d2/g"], ["f", "sub/f", "sub/g", "g"]])
         groups = []
         for nm, t in zip(names, times):
@@ -779,7 +783,7 @@ def gen_e2e(rng, corner=None):
                 groups.append((t, [nm]))
         for (t, nms), rel in zip(groups, layouts):
             for nm in nms:
-                series.append(dict(name=nm, file=rel + ext, t=t, x=[scale * rng.gauss(0.3, 1.0) for _ in t], dtg=None))
+                series.append(dict(name=nm, file=rel + sext, t=t, x=[scale * rng.gauss(0.3, 1.0) for _ in t], dtg=None))
         if rng.random() < 0.2 and len(groups) > 1:
             # same series name in two files: basename collision
             series[-1]["name"] = series[0]["name"]
@@ -813,9 +817,9 @@ def gen_e2e(rng, corner=None):
         kwj["filterargs"] = rng.choice([["lp", 0.1 / dt], ["hp", 0.05 / dt], ["bp", 0.05 / dt, 0.2 / dt], ["bs", 0.05 / dt, 0.2 / dt], ["tp", 0.5]])
     if rng.random() < 0.1:
         kwj["taperfrac"] = 0.1
-    if rng.random() < 0.08:
-        kwj["window_len"] = 3
-    case = dict(kind="e2e", source=source, family=fam, series=series, select=select, kw=kwj, ext=rng.choice(EXTS + [".pickle"] if rng.random() < 0.1 else EXTS),
+    if rng.random() < 0.08 and min(len(t) for t in tt) >= 8 and "twin" not in kwj and "resample" not in kwj:
+        kwj["window_len"] = 3          # (smoothing of very short arrays changes their length: C11's subject)
+    case = dict(kind="e2e", source=source, family=fam, series=series, select=select, kw=kwj, ext=ext,
                 basename=rng.random() < 0.75, force=rng.random() < 0.25, exist_ok=rng.random() < 0.8, preexisting=rng.random() < 0.35,
                 subdir=rng.random() < 0.15, target="out")
     return case
@@ -961,12 +965,14 @@ def eval_e2e(case, root):
         raised = e
     after = snapshot(tdir)
     info["written_names"] = exp_names
+    nproc = None if exp is None else min(len(v[0]) for v in exp.values())
+    xtra = dict(processed_samples=nproc)
     if raised is not None:
         info["outcome"] = "raise:" + type(raised).__name__
         if after != before:
             changed = sorted(set(k for k in set(before) | set(after) if before.get(k) != after.get(k)))
             fails.append(("an export that raises leaves the target (and every other file) untouched", "no file created or modified",
-                          dict(raised="%s: %s" % (type(raised).__name__, str(raised)[:120]), changed=changed), {}))
+                          dict(raised="%s: %s" % (type(raised).__name__, str(raised)[:120]), changed=changed), xtra))
         # exports that must not be refused: identical stored time arrays, valid options, distinct names, overwriting allowed
         must = ident and exp_err is None and (case["exist_ok"] or not case["preexisting"]) and ext in EXTS + [".pickle"] and \
             (len(set(exp_names)) == len(exp_names)) and all(len(v[0]) >= 2 for v in exp.values())
@@ -1010,7 +1016,7 @@ def eval_e2e(case, root):
         da = db2.getda(ind=list(range(len(keys2))), fullkey=True, store=False)
         got = [(np.asarray(da[k][0], dtype=float), np.asarray(da[k][1], dtype=float)) for k in keys2]
     except Exception as e:
-        fails.append(("the written file can be loaded again", "names, time and data", "%s: %s" % (type(e).__name__, str(e)[:160]), {}))
+        fails.append(("the written file can be loaded again", "names, time and data", "%s: %s" % (type(e).__name__, str(e)[:160]), xtra))
         return fails, info
     # names
     if case["basename"] or len(keys) == 1:
@@ -1046,16 +1052,16 @@ def eval_e2e(case, root):
         tg, xg = got[i]
         rt, at, rx, ax = tolerances(ext if ext != ".pickle" else ".pkl", te, xe)
         if len(tg) != len(te) or len(xg) != len(xe):
-            fails.append(("reloaded arrays have the length of the processed arrays", [len(te), len(xe)], [len(tg), len(xg)], dict(series=n)))
+            fails.append(("reloaded arrays have the length of the processed arrays", [len(te), len(xe)], [len(tg), len(xg)], dict(series=n, **xtra)))
             continue
         if ext == ".h5" and not is_uniform(te):
             info["h5_nonuniform"] = True
         elif not np.all(np.abs(tg - te) <= at + rt * np.abs(te)):
             j = int(np.argmax(np.abs(tg - te) - (at + rt * np.abs(te))))
-            fails.append(("reloaded time equals the processed time within the format's precision", float(te[j]), float(tg[j]), dict(series=n, index=j)))
+            fails.append(("reloaded time equals the processed time within the format's precision", float(te[j]), float(tg[j]), dict(series=n, index=j, **xtra)))
         if not np.all(np.abs(xg - xe) <= ax + rx * np.abs(xe)):
             j = int(np.argmax(np.abs(xg - xe) - (ax + rx * np.abs(xe))))
-            fails.append(("reloaded data equal the processed data within the format's precision", float(xe[j]), float(xg[j]), dict(series=n, index=j)))
+            fails.append(("reloaded data equal the processed data within the format's precision", float(xe[j]), float(xg[j]), dict(series=n, index=j, **xtra)))
     # forced resampling: independent reading of "resampled to the common window"
     if forced:
         t_all = [np.array(sel[k].t) for k in keys]
@@ -1092,17 +1098,11 @@ def f19b_shape(f):
         any(s["name"] == "Time" for s in inp.get("series", []))
 
 
-def short_window(inp):
-    """the case's window leaves fewer than two samples of the (identical) stored time arrays"""
-    tw = (inp.get("kw") or {}).get("twin")
-    if tw is None or (inp.get("kw") or {}).get("resample") is not None:
-        return False
-    return all(sum(1 for v in s["t"] if tw[0] <= v <= tw[1]) < 2 for s in inp.get("series", []))
-
-
 def f30_shape(f):
+    """the processed arrays (as in-memory retrieval returns them) have fewer than two samples"""
     inp = f.get("input") or {}
-    return isinstance(inp, dict) and inp.get("kind") == "e2e" and short_window(inp)
+    n = f.get("processed_samples")
+    return isinstance(inp, dict) and inp.get("kind") == "e2e" and n is not None and n < 2
 
 
 def f31_shape(f):
